@@ -188,6 +188,46 @@ static const char **incfn_null(config_t *c, const char *dir, const char *path, c
 
 /* ---- dump ---- */
 static int links_ok, queries_ok;
+
+/* ---- strings handed out by the library: each pointer returned by get_string / name / lookup_string is
+   remembered with a copy of its bytes; after every later operation, as long as some live setting still
+   holds that very pointer (as its name or string value), the bytes must be unchanged (and readable: ASan
+   turns a premature free into a crash). ---- */
+struct handed { const char *ptr; char *copy; size_t len; };
+static struct handed *handed_tab; static size_t handed_n, handed_cap;
+static int strings_ok = 1;
+static void hand_out(const char *p)
+{
+  if(!p) return;
+  for(size_t i = 0; i < handed_n; i++) if(handed_tab[i].ptr == p) return;
+  if(handed_n == handed_cap) { handed_cap = handed_cap ? handed_cap * 2 : 64; handed_tab = realloc(handed_tab, handed_cap * sizeof *handed_tab); }
+  handed_tab[handed_n].ptr = p; handed_tab[handed_n].len = strlen(p); handed_tab[handed_n].copy = strdup(p); handed_n++;
+}
+static int ptr_live(const config_setting_t *s, const char *p, int depth)
+{
+  if(!s || depth > 4000) return 0;
+  if(s->name == p) return 1;
+  if(s->type == CONFIG_TYPE_STRING && s->value.sval == p) return 1;
+  if((s->type == CONFIG_TYPE_GROUP || s->type == CONFIG_TYPE_ARRAY || s->type == CONFIG_TYPE_LIST) && s->value.list)
+    for(unsigned i = 0; i < s->value.list->length; i++)
+      if(ptr_live(s->value.list->elements[i], p, depth + 1)) return 1;
+  return 0;
+}
+static void check_handed(void)
+{
+  size_t w = 0;
+  for(size_t i = 0; i < handed_n; i++)
+  {
+    struct handed h = handed_tab[i];
+    if(cfg.root && ptr_live(cfg.root, h.ptr, 0))
+    {
+      if(strlen(h.ptr) != h.len || memcmp(h.ptr, h.copy, h.len + 1) != 0) strings_ok = 0;
+      handed_tab[w++] = h;
+    }
+    else free(h.copy);
+  }
+  handed_n = w;
+}
 static void dump_node(const config_setting_t *s, const config_setting_t *parent, int *path, int depth)
 {
   fputs("T ", out);
@@ -271,7 +311,7 @@ static void dump(void)
   fputc(' ', out);
   put_hs(cfg.error_file);
   fprintf(out, " %d\n", cfg.error_line);
-  fprintf(out, "S links=%s queries=%s\n", links_ok ? "ok" : "BAD", queries_ok ? "ok" : "BAD");
+  fprintf(out, "S links=%s queries=%s strings=%s\n", links_ok ? "ok" : "BAD", queries_ok ? "ok" : "BAD", strings_ok ? "ok" : "BAD");
 }
 
 /* ---- file system helpers (paths are used exactly as the script gives them; cwd = workdir) ---- */
@@ -442,7 +482,7 @@ static void typed_look_result(int k, int ok, int iv, long long lv, double fv, in
     case 1: changed = (lv != SENT_L); if(ok) fprintf(out, " i%lld", lv); break;
     case 2: changed = (double_to_bits(fv) != SENT_F); if(ok) fprintf(out, " f%016" PRIx64, double_to_bits(fv)); break;
     case 3: changed = (bv != (int)SENT_I); if(ok) fprintf(out, " i%d", bv); break;
-    case 4: changed = (sv != SENT_S); if(ok) { fputs(" s", out); put_hs(sv); } break;
+    case 4: changed = (sv != SENT_S); if(ok) { hand_out(sv); fputs(" s", out); put_hs(sv); } break;
   }
   if(!ok && changed) fputs(" CHANGED", out);
   fputc('\n', out);
@@ -470,6 +510,7 @@ static int run_line(char *line)
   {
     if(live) { config_destroy(&cfg); live = 0; }
     evlen = 0;
+    strings_ok = 1;
     fprintf(out, "C %s\n", tok[1]);
     return 0;
   }
@@ -609,7 +650,7 @@ static int run_line(char *line)
       case 1: r_int(config_setting_get_int64(s)); break;
       case 2: fprintf(out, "R f%016" PRIx64 "\n", double_to_bits(config_setting_get_float(s))); break;
       case 3: r_int(config_setting_get_bool(s)); break;
-      case 4: fputs("R s", out); put_hs(config_setting_get_string(s)); fputc('\n', out); break;
+      case 4: { const char *hp = config_setting_get_string(s); hand_out(hp); fputs("R s", out); put_hs(hp); fputc('\n', out); break; }
     }
     return 0;
   }
@@ -624,7 +665,7 @@ static int run_line(char *line)
       case 1: r_int(config_setting_get_int64_elem(s, idx)); break;
       case 2: fprintf(out, "R f%016" PRIx64 "\n", double_to_bits(config_setting_get_float_elem(s, idx))); break;
       case 3: r_int(config_setting_get_bool_elem(s, idx)); break;
-      case 4: fputs("R s", out); put_hs(config_setting_get_string_elem(s, idx)); fputc('\n', out); break;
+      case 4: { const char *hp = config_setting_get_string_elem(s, idx); hand_out(hp); fputs("R s", out); put_hs(hp); fputc('\n', out); break; }
     }
     return 0;
   }
@@ -679,7 +720,7 @@ static int run_line(char *line)
   if(n == 3 && IS("elem")) { NODE(s, tok[1]); r_node(config_setting_get_elem(s, (unsigned int)parse_num(tok[2]))); return 0; }
   if(n == 2 && IS("len")) { NODE(s, tok[1]); r_int(config_setting_length(s)); return 0; }
   if(n == 2 && IS("idx")) { NODE(s, tok[1]); r_int(config_setting_index(s)); return 0; }
-  if(n == 2 && IS("name")) { NODE(s, tok[1]); fputs("R s", out); put_hs(config_setting_name(s)); fputc('\n', out); return 0; }
+  if(n == 2 && IS("name")) { NODE(s, tok[1]); const char *hp = config_setting_name(s); hand_out(hp); fputs("R s", out); put_hs(hp); fputc('\n', out); return 0; }
   if(n == 2 && IS("type")) { NODE(s, tok[1]); r_int(config_setting_type(s)); return 0; }
   if(n == 2 && IS("isroot")) { NODE(s, tok[1]); r_int(config_setting_is_root(s)); return 0; }
   if(n == 2 && IS("parent")) { NODE(s, tok[1]); r_node(config_setting_parent(s)); return 0; }
@@ -824,6 +865,7 @@ int main(int argc, char **argv)
     while(len > 0 && (line[len - 1] == '\n' || line[len - 1] == '\r')) line[--len] = 0;
     if(len == 0) continue;
     run_line(line);
+    if(live) check_handed();
     ev_flush();
     fflush(out);
   }
@@ -831,6 +873,8 @@ int main(int argc, char **argv)
   fclose(sf);
   if(live) config_destroy(&cfg);
   free(evbuf);
+  for(size_t i = 0; i < handed_n; i++) free(handed_tab[i].copy);
+  free(handed_tab);
   for(int i = 0; i < multi_n; i++) free(multi_paths[i]);
   free(multi_paths);
   for(int i = 0; i < fail_n; i++) free(fail_msgs[i]);
